@@ -62,9 +62,7 @@ def modify_oracle(b, report, rng):
     if s is None:
         return
     cands = [p for p, e in s.ns['iso'].items() if e['kind'] == 'file' and e['blob'] not in (None, 0, -1) and not e.get('empty')]
-    if b.catalog_paths:
-        boot_blobs = set(s.boot['blobs']) if s.boot else set()
-        cands = [p for p in cands if s.ns['iso'][p]['blob'] not in boot_blobs]
+    # boot files are candidates too (fix: modify_file_in_place skips the El Torito entry among the linked records)
     rng.shuffle(cands)
     sizes = {op['blob']: op['size'] for op in b.ops if op['k'] == 'add_fp'}
     for iso_path in cands[:3]:
@@ -231,7 +229,7 @@ def run(ctx):
     def oracle(b, report):
         modify_oracle(b, report, rng)
     sysprops.run_oracle(ctx, 'C17', sysprops.histories(ctx, 100 if quick else 1800, RECIPES,
-                                                       dict(allow_refusals=False, link_bias=0.3, fat_dir=0.3, empty_bias=0.05, allow_boot=False),
+                                                       dict(allow_refusals=False, link_bias=0.3, fat_dir=0.3, empty_bias=0.05, allow_boot=True),
                                                        nops=(5, 35) if quick else (10, 90), recipe_cfgs=5 if quick else 40),
                         oracle, need_reopen=False, max_shrink=3)
     ctx.cov['rule'] = ('images with deep / multi-sector / exactly-filled directories, hard links in ISO9660 and Joliet, UDF, XA, Rock Ridge names; up to 3 '
@@ -239,7 +237,7 @@ def run(ctx):
                        'independent reader; all names re-read; unrelated files re-read; replacements with another sector count and directory targets must '
                        'be refused leaving the file byte-identical')
     ctx.cov['trusted_base'] = ['Coq 8.16.1 kernel, vm_compute', 'Model/Pack.v tied by leaf run', 'translator (ceiling_div)', 'harness/reader.py segment map']
-    ctx.assumptions = ['files that are El Torito boot files are not modified (raises after writing: known defect p of DESIGN section 0, see known findings)']
+    ctx.assumptions = ['boot files with a boot info table are modified like any other file (the table is not re-patched by modify_file_in_place)']
 
 
 def replay(ctx, rep):
